@@ -2,15 +2,16 @@
 the client writes."""
 from __future__ import annotations
 
-from ..wire import EOF, RESET, Peer
+from ..wire import EOF, RESET, Peer, TimerMixin
 
 
-class RawPeer(Peer):
+class RawPeer(TimerMixin, Peer):
     def __init__(self, world, cfg, label):
         self.world = world
         self.cfg = cfg
         self.label = label
         self.started = False
+        self._tinit()
 
     def _go(self, now):
         if self.started:
@@ -20,12 +21,10 @@ class RawPeer(Peer):
         for item in self.cfg.get("script", ()):
             d, data = item
             t += d
-            if data == "EOF":
-                self.wire.push(t, EOF)
-                self.wire.peer_closed = True
-            elif data == "RESET":
-                self.wire.push(t, RESET)
-                self.wire.peer_closed = True
+            if data in ("EOF", "RESET"):
+                self.wire.push(t, EOF if data == "EOF" else RESET)
+                # the server stops reading at that instant, not before
+                self.at(t, lambda tt: setattr(self.wire, "peer_closed", True))
             else:
                 self.wire.push(t, bytes(data))
         self.w.stats["hostile:raw_script"] += 1
@@ -47,4 +46,8 @@ class RawPeer(Peer):
         return sel
 
     def on_data(self, now, data):
-        self._go(now)
+        self.nwrites = getattr(self, "nwrites", 0) + 1
+        trig = self.cfg.get("trigger", "data")
+        need = int(trig[4:]) if trig.startswith("data") and len(trig) > 4 else 1
+        if self.nwrites >= need:
+            self._go(now)
